@@ -261,11 +261,14 @@ def interrupt_run(ctx, nlive, init, pre, cand, cand2, lineno, fn_name, n_done_ta
             ns.consume_sample()
         before = state_of(ns)
         code_objs = {NestedSampler.consume_sample.__code__: "consume_sample",
-                     NestedSampler.insert_live_point.__code__: "insert_live_point"}
+                     NestedSampler.insert_live_point.__code__: "insert_live_point",
+                     NestedSampler.check_state.__code__: "check_state",
+                     NestedSampler.update_state.__code__: "update_state"}
+        target_code = [c for c, n in code_objs.items() if n == fn_name]
         fired = []
 
         def tracer(frame, event, arg):
-            if frame.f_code in code_objs:
+            if frame.f_code in target_code:
                 def local(frame, event, arg):
                     if event == "line" and frame.f_lineno == lineno and not fired:
                         fired.append(True)
@@ -280,7 +283,10 @@ def interrupt_run(ctx, nlive, init, pre, cand, cand2, lineno, fn_name, n_done_ta
 
         sys.settrace(tracer)
         try:
+            # the body of the sampling loop
+            ns.check_state()
             ns.consume_sample()
+            ns.update_state()
         except Interrupted:
             pass
         finally:
@@ -347,7 +353,24 @@ def traced_lines(tags, consume, insert):
         done = sum(1 for (tl, tf) in tag_lines if (tf == "consume_sample" and insert_call is not None and tl < insert_call)
                    or (tf == "insert_live_point" and tl < ln))
         lines.append((ln, "insert_live_point", done))
+    # the rest of the loop body: check_state runs before consume_sample (nothing done), update_state after it (all done)
+    for fname, done in (("check_state", 0), ("update_state", len(tag_lines))):
+        try:
+            fnode = _func(tree_of(consume), "NestedSampler", fname)
+        except TranslationError:
+            continue
+        body_lines = sorted({n.lineno for n in fnode.body if isinstance(n, ast.stmt)
+                             and not (isinstance(n, ast.Expr) and isinstance(n.value, ast.Constant))})
+        for ln in body_lines:
+            lines.append((ln, fname, done))
     return lines
+
+
+_TREES = {}
+
+
+def tree_of(node):
+    return _TREES["tree"]
 
 
 def correspond(ctx):
@@ -361,6 +384,7 @@ def correspond(ctx):
     except TranslationError as e:
         ctx.broken(f"translator: {e}")
         return
+    _TREES["tree"] = tree
     lines = traced_lines(tags, consume, insert)
     ctx.rule = ("for each configuration (nlive, likelihood pattern with ties, number of completed iterations, candidate position) the real "
                 "checkpoint-and-exit path is invoked before EVERY statement line of consume_sample and insert_live_point of the real "
@@ -427,8 +451,117 @@ def correspond(ctx):
             ctx.disagree("model != implementation (pickled / resumed / final state)",
                          {"case": case, "line": mline, "model": [mp_, mr, mf], "impl": [ip, ir, ifin]})
     ctx.extra["window_lines_inconsistent"] = window_hits
+    flow_phase_test(ctx, lines, src)
     exit_code_test(ctx)
     ins_test(ctx)
+
+
+def _gauss_model():
+    from nessai.model import Model
+
+    class G(Model):
+        def __init__(self):
+            self.names = ["x", "y"]
+            self.bounds = {"x": [-5.0, 5.0], "y": [-5.0, 5.0]}
+
+        def log_prior(self, x):
+            return np.log(self.in_bounds(x), dtype="float") - 2 * np.log(10.0)
+
+        def log_likelihood(self, x):
+            return -0.5 * (x["x"] ** 2 + x["y"] ** 2)
+
+    return G()
+
+
+def real_state(ns):
+    live = ns.live_points
+    pid = lambda p: hash((float(p["x"]), float(p["y"])))  # noqa: E731
+    return {"live": [] if live is None else [(float(p["logL"]), pid(p)) for p in live],
+            "nested": [pid(p) for p in ns.nested_samples],
+            "evid": list(ns.state.logLs[1:]), "idx": list(ns.insertion_indices), "iter": int(ns.iteration)}
+
+
+def flow_phase_test(ctx, lines, src):
+    """the same interruption experiment on a real run that has switched to the flow proposal (tiny flow):
+    from a checkpoint in the flow phase, interrupt before each statement line of the loop body, resume, continue"""
+    import logging
+    from nessai.flowsampler import FlowSampler
+    from nessai.samplers.nestedsampler import NestedSampler
+    logging.disable(logging.CRITICAL)
+    base = tempfile.mkdtemp(prefix="c13f_")
+    nlive = 50
+    kw = dict(nlive=nlive, plot=False, seed=3, maximum_uninformed=50, checkpoint_on_iteration=True, checkpoint_interval=10 ** 9,
+              signal_handling=False, flow_config=dict(n_blocks=2, n_neurons=4), training_config=dict(max_epochs=5),
+              poolsize=100, log_on_iteration=False)
+    try:
+        fs = FlowSampler(_gauss_model(), output=base, resume=True, max_iteration=120, **kw)
+        fs.run(plot=False, save=False)
+        if fs.ns.uninformed_sampling:
+            ctx.case(("flow-phase", "not-reached"), False, kind="flow:not-reached")
+            return
+        code_objs = {NestedSampler.consume_sample.__code__: "consume_sample",
+                     NestedSampler.insert_live_point.__code__: "insert_live_point",
+                     NestedSampler.check_state.__code__: "check_state",
+                     NestedSampler.update_state.__code__: "update_state"}
+        step = ctx.scale(3, 1)
+        # the pickled sampler stores absolute paths, so every experiment runs in `base`, restored from a template copy
+        template = tempfile.mkdtemp(prefix="c13t_")
+        shutil.rmtree(template)
+        shutil.copytree(base, template)
+        d = base
+        for (ln, fn, done) in lines[::step]:
+            try:
+                shutil.rmtree(base)
+                shutil.copytree(template, base)
+                f2 = FlowSampler(_gauss_model(), output=d, resume=True, **kw)
+                f2.ns.max_iteration = 125
+                f2.ns.initialise()
+                target = [c for c, n in code_objs.items() if n == fn]
+                fired = []
+
+                def tracer(frame, event, arg, target=target, ln=ln, f2=f2, fired=fired):
+                    if frame.f_code in target:
+                        def local(frame, event, arg):
+                            if event == "line" and frame.f_lineno == ln and not fired:
+                                fired.append(True)
+                                sys.settrace(None)
+                                f2.ns.close_pool(code=signal.SIGTERM)
+                                f2.ns.checkpoint()
+                                raise Interrupted()
+                            return local
+                        return local
+                    return None
+
+                sys.settrace(tracer)
+                try:
+                    f2.ns.nested_sampling_loop()
+                except Interrupted:
+                    pass
+                finally:
+                    sys.settrace(None)
+                case = {"phase": "flow", "line": ln, "fn": fn, "mutating_statements_done": done,
+                        "source": src.splitlines()[ln - 1].strip(), "nlive": nlive}
+                if not fired:
+                    ctx.case(("flow", ln), False, kind="flow:line-not-reached")
+                    continue
+                f3 = FlowSampler(_gauss_model(), output=d, resume=True, **kw)
+                f3.ns.max_iteration = f3.ns.iteration + 15
+                f3.ns.initialise()
+                f3.ns.nested_sampling_loop()
+                st = real_state(f3.ns)
+                ok = consistent({**st, "live": [(k, i) for k, i in st["live"]]}, nlive)
+                if not ok:
+                    key = KEY_F4 if 2 <= done <= 6 else f"NestedSampler.{fn}:interrupt-outside-known-window"
+                    ctx.oracle_fail(key, "flow phase, after signal + checkpoint + resume + 15 iterations: " + "; ".join(reasons(st, nlive)), case)
+                ctx.case(("flow", ln), True, case if done in (0, 7) and ln % 2 == 0 else None,
+                         kind=f"flow:done={done}:{'ok' if ok else 'inconsistent'}")
+            finally:
+                pass
+    finally:
+        logging.disable(logging.NOTSET)
+        shutil.rmtree(base, ignore_errors=True)
+        if "template" in locals():
+            shutil.rmtree(template, ignore_errors=True)
 
 
 def exit_code_test(ctx):
